@@ -72,6 +72,21 @@ fn eval(sess: &mut Session, spans: &[(usize, usize)], origin: &str) {
         sess.nontrivial(&op);
         sess.count("with-drops");
     }
+    // Props/C13c (removeOverlaps_idempotent, removeOverlaps_spans_perm_invariant) observed on the real
+    // function. Counted, not judged: the property does not ask for either, so a change that loses one
+    // of them while keeping the three clauses above is no violation (it breaks K, which names it).
+    let mut again = out.clone();
+    let mut rev: Vec<Lint> = input.iter().rev().cloned().collect();
+    if guarded(|| {
+        remove_overlaps(&mut again);
+        remove_overlaps(&mut rev);
+    })
+    .is_ok()
+    {
+        sess.count(if again == out { "c13c:idempotent" } else { "c13c:NOT-idempotent" });
+        let same = rev.len() == out.len() && rev.iter().zip(out.iter()).all(|(a, b)| a.span == b.span);
+        sess.count(if same { "c13c:spans-order-independent" } else { "c13c:spans-ORDER-DEPENDENT" });
+    }
 }
 
 pub fn run(ctx: &Ctx) {
